@@ -218,6 +218,8 @@ def gen_plan(prop, r, tier, run):
                               if x['t'] == 'write'].index(e)
         ops.append(ch)
         run2 = {'op': 'run_script', 'after_change': True}
+        if r.chance(0.12):
+            run2['fail_dir_gone'] = True
         if r.chance(0.3) or ch['kind'] == 'none':
             run2['clock'] = r.pick([5, 86400, 10 * 86400, 400 * 86400])
         ops.append(run2)
@@ -396,14 +398,23 @@ class SimPopen(object):
             sim.clock.advance(sim.clock_during)
             sim.ctx.stats['faults']['clock_step_during_command'] += 1
         sim.clock.advance(dur / 2.0)
+        tmp_tok = os.path.join(sim.W.root, 'tmp', 'gt')
+        tmp_now = self.env.get('TMPDIR') or tmp_tok
+
         def text_of(e):
+            t = e['text']
+            # what the command prints for $TMPDIR is the directory it is
+            # given on *this* run (the generated test makes a fresh one)
+            if tmp_now != tmp_tok and tmp_tok in t:
+                t = t.replace(tmp_tok, tmp_now)
+                sim.ctx.stats['probes']['tmpdir_differs_at_test_time'] += 1
             # while the command is still unstable, a marked effect carries a
             # number that changes from run to run
             if sim.unstable and e.get('vary'):
                 sim.ctx.stats['faults']['output_varies_between_runs'] += 1
-                return e['text'].replace(VARY_TOKEN, 'session %06d' % (
+                return t.replace(VARY_TOKEN, 'session %06d' % (
                     424242 + sim.popen_calls))
-            return e['text']
+            return t
         for e in prog['effects']:
             if e['t'] == 'out':
                 out.append(text_of(e))
@@ -879,6 +890,13 @@ def run_script_op(ctx, op):
                            'outcome': 'no-script'})
         return
     gen = ctx.last_gen
+    if op.get('fail_dir_gone'):
+        # the directory for failure files has been cleaned away since the
+        # test was generated (tmp reaper, another job's clean-up)
+        import shutil
+        shutil.rmtree(W.path('fail'), ignore_errors=True)
+        ctx.stats['faults']['failure_directory_removed'] += 1
+        ctx.nontrivial = True
     try:
         res, msgs = load_and_run(ctx, gen['script'])
         outcome = 'ran'
@@ -910,6 +928,8 @@ def run_script_op(ctx, op):
                 kinds = ','.join(sorted({
                     (re.findall(r'^(\w+(?:Error|Exception))', v, re.M)
                      or ['?'])[-1] for v in msgs.values()}))
+                if single_run_tmpdir_case(ctx, gen, prog, bad):
+                    which, kinds = 'single-run-output-mentions-TMPDIR', '-'
                 violation(ctx, op, 'generated-test-passes',
                           '%s/%s%s' % (which, kinds,
                                        '/clock-moved' if 'clock' in op
@@ -958,6 +978,27 @@ def run_script_op(ctx, op):
                   % (ch['what'], want_test, sorted(res.items()),
                      re.findall(r'(?:patterns|substrings|removals) = \[.*?\]',
                                 gen['src'], re.S)))
+
+
+def single_run_tmpdir_case(ctx, gen, prog, bad):
+    """Generated from a single run, and every failing test is for a stream
+    or file whose content names the scratch directory gentest hands to the
+    command as $TMPDIR (the generated test hands it a fresh one)."""
+    if gen['op'].get('iterations') != 1 or not bad:
+        return False
+    tok = os.path.join(ctx.W.root, 'tmp', 'gt')
+    out, err, code, files = program_texts(prog)
+    mention = set()
+    if tok in out:
+        mention.add('test_stdout')
+    if tok in err:
+        mention.add('test_stderr')
+    for f in files:
+        if tok in f.get('text', ''):
+            t = script_test_for(gen['src'], f['path'])
+            if t:
+                mention.add(t)
+    return set(bad) <= mention
 
 
 def run_peer_change(ctx, op):
